@@ -10,8 +10,10 @@ Correspondence (real rpyc vs. Rpyc.Policy through the compiled driver `drv_polic
   reached, and the exception class otherwise, are compared with the model's answer line by line.
 * Isolation: seeded random histories of connections (opened through the real `Connection(...)` /
   `Service._connect` with differing config dicts — literal ones and application dict OBJECTS that are edited
-  before and AFTER being passed and then reused for other connections —, classic-mode `SlaveService` connects,
-  late `on_connect`, closes, and the application editing `DEFAULT_CONFIG` itself (restored when the case ends));
+  before and AFTER being passed and then reused for other connections —, classic-mode connects (`SlaveService`,
+  real `ClassicService` pairs via utils.factory/utils.classic), `MasterService` pairs, connections a real
+  `ThreadedServer` makes from one `protocol_config` dict, closes, and the application editing `DEFAULT_CONFIG`
+  itself (restored when the case ends)); these histories are SAMPLED;
   after every event every connection's `_config` (read key by key), a panel of its decisions and `DEFAULT_CONFIG`
   are compared with the model's world, and `DEFAULT_CONFIG` is compared by deep equality with a snapshot plus
   the application's own edits.  A connection's configuration is the copy taken when it was opened.
@@ -39,34 +41,58 @@ NAMESPACE = "Rpyc.Props.C06"
 GEN = ["Policy.lean"]
 DRIVERS = ["drv_policy"]
 TRUSTED = [
-    "modelled, not verified: `hasattr(obj, n)` and what a user-written `_rpyc_*attr` hook does are parameters of the "
-    "model (universally quantified in the theorems, read off the canary objects by the harness: dir() of a fresh "
-    "instance, hooks the canary class defines); CPython's `getattr(type(obj), name, None)` lookup of type-level hooks; "
-    "strict UTF-8 of `str(bytes, 'utf8')` equals the model's decoder; what getattr/setattr/delattr do once invoked is "
-    "the object's business (the check only verifies that the real handler passes their result/exception through)",
+    "modelled, not verified: `hasattr(obj, n)`, what evaluating an attribute does besides answering (`probeExtra`) and "
+    "what a user-written `_rpyc_*attr` hook does are parameters of the model (universally quantified in the theorems, "
+    "read off the canary objects by the harness: dir() of a fresh instance, hooks the canary class defines; for "
+    "`restricted` views the view's `__getattr__ = _rpyc_getattr` is modelled: probing a listed name reads the target); "
+    "CPython's `getattr(type(obj), name, None)` lookup of type-level hooks; strict UTF-8 of `str(bytes, 'utf8')` equals "
+    "the model's decoder; what getattr/setattr/delattr and calling a value do once invoked is the object's business "
+    "(the check only verifies that the real handler passes their result/exception through)",
     "the harness flattens the model's events onto what a canary can observe: probe and getattr-access are both a read "
     "of that name on that object; a call is logged by the value object",
-    "DEFAULT_CONFIG.copy() is shallow: the `safe_attrs` set object is shared by reference between DEFAULT_CONFIG and "
-    "every connection; no rpyc code mutates it (the correspondence compares DEFAULT_CONFIG deep-equal after every "
-    "event), user code that mutates that set in place is outside the statement",
+    "serving a request (`access` in the heap model) is assumed to write no configuration object. That is true of the "
+    "handlers themselves; it is NOT enforced against the peer: under classic mode (and for any service exposing them) a "
+    "peer may reach `conn._config`, other connections or `rpyc.core.protocol.DEFAULT_CONFIG` through "
+    "`SlaveService.exposed_getconn` / `getmodule` / `eval` and edit them — that is the peer being given the process, "
+    "outside this property (C07 covers what a service exposes)",
+    "DEFAULT_CONFIG.copy() is shallow: the `safe_attrs` set OBJECT is shared by reference between DEFAULT_CONFIG and "
+    "every connection that was not given its own (measured: Gen.initSharesDefaultSafeSet; modelled: `SafeV.dfltSet`; "
+    "theorem shared_default_set_hazard shows an in-place growth reaches open connections). No rpyc code grows it "
+    "(measured for the classic connect, compared deep-equal after every event of every history); application code "
+    "that mutates that set in place is outside the statement (`HEvent.fair`)",
+    "calling `SlaveService.on_connect(conn)` by hand on an established or closed connection is not a history event "
+    "(the classic overrides belong to the connect); `_cleanup` keeps `_config` of a closed connection",
 ]
 ASSUMPTIONS = [
     "the seven attribute switches are bools and exposed_prefix is a str (a non-str prefix makes `startswith` raise "
     "TypeError; not a configuration in the statement's sense)",
-    "objects whose __getattr__/properties raise something other than AttributeError inside hasattr() are outside the "
-    "object shapes of the statement",
+    "'has no effect' for a refused request means: no accessor, no hook, no call. `_check_attr` still evaluates "
+    "`hasattr(obj, prefix+name)` (and `hasattr(obj, name)`) before refusing — also for writes and deletes — and hasattr "
+    "runs a property getter / `__getattr__` of those two attributes; an object whose attribute LOOKUP has side effects, "
+    "or raises something other than AttributeError, sees that (theorems: denied_no_effect is 'nothing but probes', and "
+    "effect-free under PureProbes)",
+    "a delete request on a `restricted` view is decided by the configuration about the view object; its probes read "
+    "the wrapped target for LISTED names only (theorems restricted_del_*); the target is never written/deleted/called",
     "undecodable bytes names raise UnicodeDecodeError rather than TypeError (DESIGN.md C06: accepted as within the "
     "statement: refused, no effect)",
+    "old-style slicing (`_handle_oldslicing`) is two call-by-name requests: a refusal of the first name is swallowed and "
+    "the second peer-chosen name is tried; each follows the decision table",
 ]
 EXPLANATION = (
     "Theorems (Lean, all configurations/names/objects/histories): _check_attr's decision as one closed formula and in "
     "the statement's words (allowed iff kind enabled and (name allowed or twin exists); which of name/twin is accessed; "
-    "only AttributeError otherwise); a denied request leaves only hasattr probes in the effect log; type-level hooks "
-    "make the configuration irrelevant, restricted views permit exactly attrs/wattrs and never forward a delete, "
-    "Service refuses writes/deletes; isolation as noninterference over all histories (erasing other connections' "
-    "events changes nothing; DEFAULT_CONFIG never changes; every live config is the defaults overlaid with its own "
-    "open dict, optionally with the classic-mode update); name typing (valid UTF-8 bytes = text, non-text TypeError, "
-    "undecodable UnicodeDecodeError, all before any effect).")
+    "only AttributeError otherwise); a refused request (getattr/setattr/delattr/callattr, cmp, ctxexit, both stages of "
+    "oldslicing) leaves nothing but hasattr probes of the name and its twin — no accessor, hook or call; what is read "
+    "and called on success is exactly the approved name; type-level hooks make the configuration irrelevant, restricted "
+    "views permit exactly attrs/wattrs, a delete on a view reaches the target only by reads of listed names, Service "
+    "refuses writes/deletes; isolation over a HEAP of dict objects with identity (DEFAULT_CONFIG, the application's "
+    "dicts, one _config chain per connection, the shared default safe_attrs set object): for the construction the "
+    "generator measured on the live code (own shallow copy; classic overrides into the connection's own dict) an "
+    "established connection's configuration survives every later event, rpyc never writes DEFAULT_CONFIG or a caller's "
+    "dict, opening takes a snapshot; each state-sharing variant (aliasing DEFAULT_CONFIG / the caller's dict, a "
+    "read-through mapping, classic overrides written into the caller's dict, growing the shared set) is in the model "
+    "and provably breaks isolation; name typing (valid UTF-8 bytes = text, non-text TypeError, undecodable "
+    "UnicodeDecodeError, all before any effect).")
 
 
 # ------------------------------------------------------------------------------------------------ real code access
@@ -163,6 +189,15 @@ class Foreign(Val):
     def __init__(self, name, wrapped):
         Val.__init__(self, name)
         self.wrapped = wrapped
+
+    def __call__(self, *args, **kwargs):
+        r = Val.__call__(self, *args, **kwargs)
+        if FOREIGN_RAISES[0]:
+            raise ValueError("the object's own failure")
+        return r
+
+
+FOREIGN_RAISES = [False]      # `oldslicing-r`: inherited values raise when called, like the canary's own
 
 
 ARMED = [False]     # True only while run_real() executes the handler
@@ -463,7 +498,7 @@ def decoded_or_fallback(name):
 
 
 REQS = ["getattr", "setattr", "delattr", "callattr"]
-OLD_R_SHAPES = ("has-name", "has-both", "hooks-allow-name", "restricted-attrs-name", "service-subclass")
+OLD_R_SHAPES = ("has-name", "has-both", "hooks-allow-name")
 
 
 def build_for(shape, req, text, twin):
@@ -486,6 +521,7 @@ def run_real(conn, obj, req, name):
     newval = Val("<new>")
     note = ""
     ARMED[0] = True
+    FOREIGN_RAISES[0] = req == "oldslicing-r"
     try:
         if req == "getattr":
             res = conn._handle_getattr(obj, name)
@@ -531,6 +567,7 @@ def run_real(conn, obj, req, name):
             out = "err " + valtext.err_name(ex)
     finally:
         ARMED[0] = False
+        FOREIGN_RAISES[0] = False
     return show_log(LOG) + "-> " + out + note
 
 
@@ -843,7 +880,7 @@ def gen_history(r):
         elif e == 2:
             evs.append(["setdefault", gen_env_overlay(r)])
         elif state[i] == "fresh":
-            kind = r.choice(["direct", "void", "slave", "slave", "custom"])
+            kind = r.choice(["direct", "void", "slave", "slave", "custom", "classic-pair", "master-pair", "server"])
             if r.chance(3, 5):
                 evs.append(["openwith", i, 0 if r.chance(2, 3) else r.below(N_DICTS), kind])
             else:
@@ -879,12 +916,26 @@ def overlay_tokens(ov):
     return " ".join(toks)
 
 
+def close_conn(conn):
+    """close a connection made by HistoryRun.open_conn (pairs live on their own in-memory network)"""
+    net = getattr(conn, "_c06_net", None)
+    if net is None:
+        conn.close()
+        return
+    with net.installed():
+        try:
+            conn.close()
+        finally:
+            net.shutdown()
+
+
 class HistoryRun(object):
     """executes a history on the real code; yields per-step observations in the model's text form"""
     def __init__(self, hist):
         self.hist = hist
         self.conns = [None] * hist["slots"]
         self.dicts = [dict() for _ in range(N_DICTS)]       # the application's settings-dict OBJECTS
+        self.servers, self.captured, self.socks, self.keep = {}, [], [], []
         protocol, service, _h = rpyc_mods()
         self.protocol, self.service = protocol, service
 
@@ -906,6 +957,43 @@ class HistoryRun(object):
             return self.custom()._connect(DummyChannel(), cfg)
         if kind == "slave":
             return service.SlaveService._connect(DummyChannel(), cfg)      # classic mode
+        if kind in ("classic-pair", "master-pair"):
+            # a REAL pair over the deterministic in-memory network, made the way applications make them:
+            #   classic-pair: factory.connect_stream(.., ClassicService, config=cfg)  <->  utils.classic.connect_stream
+            #   master-pair : factory.connect_stream(.., MasterService, config=cfg)   <->  a SlaveService peer
+            import simnet
+            from rpyc.utils import factory, classic
+            net = simnet.Net()
+            with net.installed():
+                sa, sb = net.stream_pair("A", "B")
+                if kind == "classic-pair":
+                    net.spawn("B", lambda: classic.connect_stream(sb).serve_all())
+                    conn = factory.connect_stream(sa, service.ClassicService, config=cfg)
+                else:
+                    net.spawn("B", lambda: factory.connect_stream(sb, service.SlaveService).serve_all())
+                    conn = factory.connect_stream(sa, service.MasterService, config=cfg)
+            conn._c06_net = net
+            return conn
+        if kind == "server":
+            # what a server does for every client: ONE protocol_config dict object, `dict(protocol_config, ...)` per
+            # connection (utils/server.py `_serve_client`), captured instead of served
+            import socket
+            srv = self.servers.get(id(cfg))
+            if srv is None:
+                from rpyc.utils.server import ThreadedServer
+                got = self.captured
+
+                class CapturingServer(ThreadedServer):
+                    def _handle_connection(self, conn):
+                        got.append(conn)
+                srv = CapturingServer(service.VoidService, hostname="127.0.0.1", port=0, protocol_config=cfg,
+                                      auto_register=False)
+                self.servers[id(cfg)] = srv
+                self.keep.append(cfg)
+            a, b = socket.socketpair()
+            self.socks += [a, b]
+            srv._serve_client(a, None)
+            return self.captured.pop()
         raise ValueError(kind)
 
     def decisions_of(self, c):
@@ -927,7 +1015,7 @@ class HistoryRun(object):
                 cfg = self.dicts[ov]            # the OBJECT itself, not a copy: it may be edited later
             self.conns[i] = self.open_conn(kind, cfg)
         elif ev[0] == "close":
-            self.conns[ev[1]].close()
+            close_conn(self.conns[ev[1]])
         elif ev[0] == "edit":
             self.dicts[ev[1]].update(to_real_dict(ev[2]))
         elif ev[0] == "setdefault":
@@ -971,7 +1059,17 @@ class HistoryRun(object):
     def cleanup(self):
         for c in self.conns:
             if c is not None and not c.closed:
-                c.close()
+                close_conn(c)
+        for srv in self.servers.values():
+            try:
+                srv.listener.close()
+            except Exception:  # noqa
+                pass
+        for sk in self.socks:
+            try:
+                sk.close()
+            except Exception:  # noqa
+                pass
 
 
 def default_text():
@@ -1061,7 +1159,7 @@ def outcome_class(line, text, twin):
 def correspondence(ctx):
     c = Corr()
     prefixes = ctx.budget(PREFIXES_QUICK, PREFIXES_THOROUGH)
-    n_hist = ctx.budget(900, 6000)
+    n_hist = ctx.budget(700, 6000)
     c.rule = (
         "decision table enumerated COMPLETELY (thorough tier: again with a caller-supplied safe list for two prefixes): "
         "128 settings of the seven attribute switches x prefixes %r x %d name "
@@ -1070,11 +1168,14 @@ def correspondence(ctx):
         "surrogate/truncated UTF-8 bytes, int/None/bool/float/tuple/bytearray/str-subclass/bytes-subclass) x %d object "
         "shapes (has name / twin / both / neither, own hooks allowing / refusing with ValueError, get-hook only, three "
         "restricted views, Service subclass, hook set to None, instance-level hook) x getattr/setattr/delattr/callattr "
-        "(+ ctxexit on __exit__, + cmp on 5 type-level shapes), each on the real Connection._handle_* with a fresh "
+        "(+ oldslicing with a fixed fallback name, also with a first value whose call raises; + ctxexit on __exit__; + cmp "
+        "on 5 type-level shapes), each on the real Connection._handle_* with a fresh "
         "logging canary; compared: ordered log of attributes read/written/deleted/called, accessor-or-hook reached, "
         "exception class. Then %d seeded connection histories (open with literal config dicts or with application dict "
-        "objects that are edited after use and reused / classic SlaveService connect / late on_connect / close / the "
-        "application editing DEFAULT_CONFIG mid-history) comparing every connection's config, %d panel decisions per live "
+        "objects that are edited after use and reused / connection kinds: bare Connection, Void/custom Service._connect, "
+        "SlaveService._connect, real ClassicService and MasterService pairs made through utils.factory / utils.classic on "
+        "the in-memory network, connections made by a real ThreadedServer from ONE protocol_config dict / close / the "
+        "application editing DEFAULT_CONFIG mid-history); the histories are SAMPLED, only the table is exhaustive; comparing every connection's config, %d panel decisions per live "
         "connection and DEFAULT_CONFIG after every event. Non-trivial: anything but 'operation kind disabled, no "
         "probe, AttributeError'. Distinct: (prefix, name class, shape, request, output with names abstracted to "
         "name/twin) for the table; (step kind, observation kind, output) for histories."
@@ -1195,7 +1296,10 @@ def correspondence(ctx):
     ctx.log("histories: %d histories, %d comparisons in %.1fs" % (n_hist, n_checks, time.time() - t1))
     c.extra["histories"] = n_hist
     c.extra["history_comparisons"] = n_checks
-    c.exhaustive = True
+    # `exhaustive` is about the whole run: the decision table is enumerated completely, the histories are SAMPLED
+    c.exhaustive = False
+    c.extra["decision_table_enumerated_completely"] = True
+    c.extra["histories_are_seeded_samples"] = True
     return c
 
 
@@ -1226,8 +1330,11 @@ def statement_table(cfg, op_key, text, has_name, has_twin):
     names = set()
     if allowed:
         names.add(text)
-    if twin_counts:
-        names.add(prefix + text)      # "which is then what is accessed" (when both apply the statement does not choose)
+    if twin_counts and not (allowed and has_name):
+        # "or have an exposed-prefixed twin on the object, which is then what is accessed": the twin stands in when
+        # the name itself is not allowed or the object does not have it.  A name that IS allowed and that the object
+        # HAS is the attribute the peer asked for — nothing else may be touched in its place.
+        names.add(prefix + text)
     return ("allow", names)
 
 
@@ -1443,7 +1550,7 @@ def oracle_history(hist):
                 try:
                     want = run.decisions_of(ref)
                 finally:
-                    ref.close()
+                    close_conn(ref)
                 got = run.decisions(ev[1])
                 if got != want:
                     k = [i for i in range(len(want)) if want[i] != got[i]][0]
